@@ -2,13 +2,13 @@
 //! case: ( node_level L ( (fails (filter ...)) ... ) ( attached ... ) )
 //! filter: (0 r) scripted (0=Accept 1=Neutral 2=Reject) | (1 lvl) ThresholdFilter
 //! result: event list — (0 app k) consult, (1 app) deliver, (2 app) handler
-use crate::util::*;
-use crate::val::Val;
+use vh::util::*;
+use vh::val::Val;
 use log::Log;
 use log4rs::config::{Appender, Config, Root};
 use log4rs::filter::threshold::ThresholdFilter;
 
-pub fn run(case: &Val) -> Val {
+fn run(case: &Val) -> Val {
     let c = case.l();
     let node_level = level_filter(c[0].n());
     let lvl = level(c[1].n());
@@ -56,4 +56,8 @@ pub fn run(case: &Val) -> Val {
     );
     let ev = rec.lock().unwrap().clone();
     Val::L(ev)
+}
+
+fn main() {
+    vh::main_loop(run);
 }
